@@ -1,5 +1,7 @@
 (* Proofs about Model/Route.v (C07): the declarative routing rule [Routes] and its equivalence with the executable
    match_route, the closed form [selected], depth-first order, non-emptiness, option inheritance. *)
+From Coq Require OrderedTypeEx.
+From stdpp Require Import sorting.
 From AM Require Import Base.Prelude Model.Matchers Model.Route.
 
 (* ---------- induction over the nested trees ---------- *)
@@ -768,3 +770,226 @@ Qed.
 
 Lemma m_sort_perm l : Permutation (m_sort l) l.
 Proof. induction l as [|x l IH]; simpl; [reflexivity|]. rewrite m_insert_perm, IH. reflexivity. Qed.
+
+Theorem inherit_spec_ex cr p n :
+  node_at (new_root cr) p = Some n -> exists up, config_chain cr p = Some up /\ inherited (r_opts n) up.
+Proof.
+  intros Hn. destruct (cchain_some p cr default_opts [] (ex_intro _ n Hn)) as [up Hup].
+  exists up. split; [exact Hup | exact (inherit_spec cr p n up Hn Hup)].
+Qed.
+
+Lemma chain_head : forall p cr acc up k,
+  cchain cr p acc = Some up -> cnode_at cr p = Some k -> exists rest, up = c_cfg k :: rest.
+Proof.
+  induction p as [|i q IH]; intros [c ch] acc up k Hc Hk; simpl in *.
+  - injection Hc as <-. injection Hk as <-. eauto.
+  - destruct (nth_error ch i) as [k'|]; [|discriminate]. eapply IH; eassumption.
+Qed.
+
+(* ---------- sort.Sort(matchers): the result does not depend on the order the matchers were appended in
+   (Go map iteration over match / match_re), nor on the sorting algorithm ---------- *)
+Definition kcmp (a b : matcher) : comparison :=
+  match String.compare (m_name a) (m_name b) with
+  | Eq => match String.compare (m_value a) (m_value b) with
+          | Eq => Nat.compare (mtype_rank (m_type a)) (mtype_rank (m_type b))
+          | c => c
+          end
+  | c => c
+  end.
+
+Lemma scmp_trans a b c : String.compare a b = Lt -> String.compare b c = Lt -> String.compare a c = Lt.
+Proof.
+  intros H1 H2. apply OrderedTypeEx.String_as_OT.cmp_lt in H1, H2. apply OrderedTypeEx.String_as_OT.cmp_lt.
+  eapply OrderedTypeEx.String_as_OT.lt_trans; eassumption.
+Qed.
+
+Lemma scmp_eq a b : String.compare a b = Eq <-> a = b.
+Proof. exact (OrderedTypeEx.String_as_OT.cmp_eq a b). Qed.
+
+Lemma scmp_refl a : String.compare a a = Eq.
+Proof. apply scmp_eq. reflexivity. Qed.
+
+Lemma scmp_opp a b : String.compare b a = CompOpp (String.compare a b).
+Proof. apply String.compare_antisym. Qed.
+
+Lemma m_less_kcmp a b : m_less a b = true <-> kcmp a b = Lt.
+Proof.
+  unfold m_less, kcmp, String.ltb.
+  rewrite (scmp_opp (m_name a) (m_name b)), (scmp_opp (m_value a) (m_value b)).
+  destruct (String.compare (m_name a) (m_name b)); simpl; try (split; congruence).
+  destruct (String.compare (m_value a) (m_value b)); simpl; try (split; congruence).
+  rewrite Nat.ltb_lt, Nat.compare_lt_iff. reflexivity.
+Qed.
+
+Lemma mtype_rank_inj t1 t2 : mtype_rank t1 = mtype_rank t2 -> t1 = t2.
+Proof. destruct t1, t2; simpl; congruence. Qed.
+
+Lemma kcmp_eq a b : kcmp a b = Eq -> a = b.
+Proof.
+  unfold kcmp. destruct (String.compare (m_name a) (m_name b)) eqn:E1; try discriminate.
+  destruct (String.compare (m_value a) (m_value b)) eqn:E2; try discriminate.
+  intros E3. apply scmp_eq in E1, E2. apply Nat.compare_eq in E3. apply mtype_rank_inj in E3.
+  destruct a, b; simpl in *; congruence.
+Qed.
+
+Lemma kcmp_refl a : kcmp a a = Eq.
+Proof.
+  unfold kcmp. rewrite scmp_refl, scmp_refl.
+  apply Nat.compare_refl.
+Qed.
+
+Lemma kcmp_opp a b : kcmp b a = CompOpp (kcmp a b).
+Proof.
+  unfold kcmp. rewrite (scmp_opp (m_name a) (m_name b)), (scmp_opp (m_value a) (m_value b)).
+  destruct (String.compare (m_name a) (m_name b)); simpl; try reflexivity.
+  destruct (String.compare (m_value a) (m_value b)); simpl; try reflexivity.
+  apply Nat.compare_antisym.
+Qed.
+
+Lemma kcmp_trans a b c : kcmp a b = Lt -> kcmp b c = Lt -> kcmp a c = Lt.
+Proof.
+  unfold kcmp.
+  destruct (String.compare (m_name a) (m_name b)) eqn:A1; try discriminate;
+  destruct (String.compare (m_name b) (m_name c)) eqn:B1; try discriminate.
+  - apply scmp_eq in A1, B1. rewrite A1, B1, scmp_refl.
+    destruct (String.compare (m_value a) (m_value b)) eqn:A2; try discriminate;
+    destruct (String.compare (m_value b) (m_value c)) eqn:B2; try discriminate.
+    + apply scmp_eq in A2, B2. rewrite A2, B2, scmp_refl.
+      rewrite !Nat.compare_lt_iff. lia.
+    + apply scmp_eq in A2. rewrite A2, B2. auto.
+    + apply scmp_eq in B2. rewrite <- B2, A2. auto.
+    + rewrite (scmp_trans _ _ _ A2 B2). auto.
+  - apply scmp_eq in A1. rewrite A1, B1. auto.
+  - apply scmp_eq in B1. rewrite <- B1, A1. auto.
+  - rewrite (scmp_trans _ _ _ A1 B1). auto.
+Qed.
+
+(* a is not after b *)
+Definition m_le (a b : matcher) : Prop := m_less b a = false.
+
+Lemma m_le_kcmp a b : m_le a b <-> kcmp a b <> Gt.
+Proof.
+  unfold m_le. rewrite <- not_true_iff_false, m_less_kcmp, kcmp_opp.
+  destruct (kcmp a b); simpl; split; congruence.
+Qed.
+
+Global Instance m_le_trans : Transitive m_le.
+Proof.
+  intros a b c. rewrite !m_le_kcmp. intros H1 H2.
+  destruct (kcmp a b) eqn:E1; [apply kcmp_eq in E1; subst; exact H2 | | congruence].
+  destruct (kcmp b c) eqn:E2; [apply kcmp_eq in E2; subst; congruence | | congruence].
+  rewrite (kcmp_trans _ _ _ E1 E2). congruence.
+Qed.
+
+Global Instance m_le_antisym : AntiSymm (=) m_le.
+Proof.
+  intros a b. rewrite !m_le_kcmp, (kcmp_opp a b). intros H1 H2.
+  destruct (kcmp a b) eqn:E; simpl in *; [apply kcmp_eq; exact E | congruence | congruence].
+Qed.
+
+Lemma m_less_le a b : m_less a b = true -> m_le a b.
+Proof. rewrite m_less_kcmp, m_le_kcmp. congruence. Qed.
+
+Lemma m_insert_sorted m l : StronglySorted m_le l -> StronglySorted m_le (m_insert m l).
+Proof.
+  induction 1 as [|x r Hr IH Hx]; simpl.
+  - repeat constructor.
+  - destruct (m_less x m) eqn:E.
+    + constructor; [exact IH|].
+      rewrite (m_insert_perm m r). constructor; [apply m_less_le; exact E | exact Hx].
+    + constructor; [constructor; assumption|].
+      constructor; [exact E|]. eapply Forall_impl; [exact Hx|]. intros y Hy. etransitivity; [exact E | exact Hy].
+Qed.
+
+Lemma m_sort_sorted l : StronglySorted m_le (m_sort l).
+Proof. induction l as [|x l IH]; simpl; [constructor | apply m_insert_sorted; exact IH]. Qed.
+
+Theorem m_sort_canonical l l' : Permutation l l' -> m_sort l = m_sort l'.
+Proof.
+  intros H. apply (StronglySorted_unique m_le); [apply m_sort_sorted | apply m_sort_sorted|].
+  rewrite !m_sort_perm. exact H.
+Qed.
+
+(* any list that is sorted by Less and holds the same matchers is the model's list: the sorting algorithm
+   (Go's sort.Sort is not stable) does not matter *)
+Theorem sorted_is_m_sort l s : Permutation s l -> StronglySorted m_le s -> s = m_sort l.
+Proof.
+  intros Hp Hs. apply (StronglySorted_unique m_le); [exact Hs | apply m_sort_sorted|].
+  rewrite m_sort_perm. exact Hp.
+Qed.
+
+Theorem build_matchers_order_irrelevant c c' :
+  Permutation (rc_match c) (rc_match c') -> Permutation (rc_match_re c) (rc_match_re c') ->
+  Permutation (rc_matchers c) (rc_matchers c') -> build_matchers c = build_matchers c'.
+Proof.
+  intros H1 H2 H3. unfold build_matchers. apply m_sort_canonical.
+  apply Permutation_app; [apply Permutation_map; exact H1|].
+  apply Permutation_app; [apply Permutation_map; exact H2 | exact H3].
+Qed.
+
+(* ---------- Route.Idx: a post-order numbering, unique per route and within 0 .. size-1 ---------- *)
+Lemma size_pos r : (1 <= size r)%nat.
+Proof. destruct r; simpl; lia. Qed.
+
+Lemma sum_firstn_le (l : list route) : forall i c,
+  nth_error l i = Some c -> (list_sum (map size (firstn i l)) + size c <= list_sum (map size l))%nat.
+Proof.
+  induction l as [|x l IH]; intros [|i] c H; simpl in *; try discriminate.
+  - injection H as <-. lia.
+  - specialize (IH i c H). lia.
+Qed.
+
+Lemma sum_firstn_lt (l : list route) : forall i j c,
+  (i < j)%nat -> nth_error l i = Some c ->
+  (list_sum (map size (firstn i l)) + size c <= list_sum (map size (firstn j l)))%nat.
+Proof.
+  induction l as [|x l IH]; intros [|i] [|j] c Hij H; simpl in *; try discriminate; try lia.
+  - injection H as <-. lia.
+  - specialize (IH i j c ltac:(lia) H). lia.
+Qed.
+
+Lemma size_children r : size r = S (list_sum (map size (r_children r))).
+Proof. destruct r; reflexivity. Qed.
+
+Lemma idx_from_range : forall p r start k,
+  idx_from start r p = Some k ->
+  (start <= k < start + size r)%nat /\ (p <> [] -> k < start + size r - 1)%nat.
+Proof.
+  induction p as [|i q IH]; intros r start k H.
+  - simpl in H. injection H as <-. pose proof (size_pos r). split; [lia | congruence].
+  - simpl in H. destruct (nth_error (r_children r) i) as [c|] eqn:Ec; [|discriminate].
+    destruct (IH c _ k H) as [Hr _]. pose proof (sum_firstn_le _ _ _ Ec). rewrite (size_children r).
+    split; [lia | intros _; lia].
+Qed.
+
+Theorem idx_from_inj : forall p p' r start k,
+  idx_from start r p = Some k -> idx_from start r p' = Some k -> p = p'.
+Proof.
+  induction p as [|i q IH]; intros p' r start k H H'.
+  - destruct p' as [|j q']; [reflexivity|]. exfalso.
+    destruct (idx_from_range _ _ _ _ H') as [_ Hlt]. simpl in H. injection H as <-.
+    specialize (Hlt ltac:(discriminate)). lia.
+  - destruct p' as [|j q'].
+    + exfalso. destruct (idx_from_range _ _ _ _ H) as [_ Hlt]. simpl in H'. injection H' as <-.
+      specialize (Hlt ltac:(discriminate)). lia.
+    + simpl in H, H'.
+      destruct (nth_error (r_children r) i) as [c|] eqn:Ec; [|discriminate].
+      destruct (nth_error (r_children r) j) as [c'|] eqn:Ec'; [|discriminate].
+      destruct (idx_from_range _ _ _ _ H) as [Hr _]. destruct (idx_from_range _ _ _ _ H') as [Hr' _].
+      destruct (Nat.lt_trichotomy i j) as [Hlt | [-> | Hgt]].
+      * pose proof (sum_firstn_lt _ _ _ _ Hlt Ec). lia.
+      * rewrite Ec in Ec'. injection Ec' as <-. f_equal. eapply IH; eassumption.
+      * pose proof (sum_firstn_lt _ _ _ _ Hgt Ec'). lia.
+Qed.
+
+Theorem route_idx_unique r p p' k : route_idx r p = Some k -> route_idx r p' = Some k -> p = p'.
+Proof. apply idx_from_inj. Qed.
+
+Theorem route_idx_range r p k : route_idx r p = Some k -> (k < size r)%nat.
+Proof. intros H. destruct (idx_from_range _ _ _ _ H) as [Hr _]. lia. Qed.
+
+Lemma idx_from_some : forall p r start, is_Some (node_at r p) -> is_Some (idx_from start r p).
+Proof.
+  induction p as [|i q IH]; intros r start H; simpl in *; [eauto|].
+  destruct (nth_error (r_children r) i); [apply IH; exact H | destruct H; discriminate].
+Qed.
